@@ -26,6 +26,15 @@ class GeoKeyError(Exception):
     pass
 
 
+class GeoUndecided(AnalysisError):
+    """a test on a symbolic number (`if not dx`, `dy == 0`) that the symbols do not decide;
+    rules split the case (geom.split_cases) or report the construct as outside the grammar"""
+    def __init__(self, aff, text: str = ''):
+        super().__init__(f'geometry guard: `{text or aff}` is zero for some operands and not '
+                         f'for others (case not split)')
+        self.aff = aff
+
+
 class GeoIndexError(GeoKeyError):
     """a sequence index out of range (IndexError, not KeyError)"""
 
@@ -349,9 +358,19 @@ class GeoInterp:
         else:
             raise AnalysisError(f'cannot bind `{src(target)}`')
 
+    def _is_zero(self, a: Aff, text: str = '') -> bool:
+        if a.is_const():
+            return a.k == 0
+        nz = getattr(self, 'nonzero', ())
+        if a in nz or -a in nz:
+            return False
+        raise GeoUndecided(a, text)
+
     def _truth(self, v) -> bool:
         if v[0] == 'B':
             return v[1]
+        if v[0] == 'N':
+            return not self._is_zero(v[1])
         if v == NONE:
             return False
         if v[0] == 'U':
@@ -362,6 +381,9 @@ class GeoInterp:
         op = e.ops[0]
         a = self.eval(e.left, env, module, depth)
         b = self.eval(e.comparators[0], env, module, depth)
+        if isinstance(op, (ast.Eq, ast.NotEq)) and a[0] == 'N' and b[0] == 'N':
+            z = self._is_zero(a[1] - b[1], src(e))
+            return z if isinstance(op, ast.Eq) else not z
         if isinstance(op, (ast.Is, ast.Eq)):
             return a == b
         if isinstance(op, (ast.IsNot, ast.NotEq)):
@@ -1003,7 +1025,19 @@ def index_map(e: ast.AST, env: Dict[str, IndexMap]) -> IndexMap:
                 not e.keywords and f not in env.get('__stack__', ()):
             # a module-local helper on 2-D lists: its own index map, composed
             a = index_map(e.args[0], env)
-            h = function_index_map(helpers[f], _stack=tuple(env.get('__stack__', ())) + (f,))
+            facts = env.get('__facts__') or {}
+            hf = {d: _dim_is_one(x, facts) for d, x in (('H', a.nr), ('W', a.nc))}
+            hp = function_pieces(helpers[f], {d: v for d, v in hf.items() if v is not None},
+                                 _stack=tuple(env.get('__stack__', ())) + (f,))
+            if len(hp) > 1:
+                # the helper distinguishes a shape the caller has not fixed yet
+                for d, x in (('H', a.nr), ('W', a.nc)):
+                    if hf[d] is None and len({f_.get(d) for f_, _ in hp}) > 1:
+                        for cd in ('H', 'W'):
+                            if x == Aff.sym(cd):
+                                raise _NeedSplit(cd)
+                raise AnalysisError(f'{f}: shape cases not expressible in the caller\'s dims')
+            h = hp[0][1]
             if getattr(h, 'mutates_operand', False) and not (a.fresh_outer and a.fresh_rows):
                 env.setdefault('__mut__', []).append(f)
             dims = {'H': a.nr, 'W': a.nc}
@@ -1011,6 +1045,24 @@ def index_map(e: ast.AST, env: Dict[str, IndexMap]) -> IndexMap:
             at = {'i': hr, 'j': hc}
             return IndexMap(a.r.subst(at), a.c.subst(at), h.nr.subst(dims), h.nc.subst(dims),
                             h.fresh_outer or a.fresh_outer, h.fresh_rows or a.fresh_rows)
+    # a row turned into a column: [[x] for x in D[0]]
+    if isinstance(e, ast.ListComp) and len(e.generators) == 1 and not e.generators[0].ifs \
+            and isinstance(e.generators[0].target, ast.Name) and \
+            isinstance(e.elt, ast.List) and len(e.elt.elts) == 1 and \
+            src(e.elt.elts[0]) == e.generators[0].target.id and \
+            isinstance(e.generators[0].iter, ast.Subscript) and \
+            src(e.generators[0].iter.slice) == '0':
+        a = index_map(e.generators[0].iter.value, env)
+        at = {'i': Aff.const(0), 'j': Aff.sym('i')}
+        return IndexMap(a.r.subst(at), a.c.subst(at), a.nc, Aff.const(1), True, True)
+    # a column turned into a row: [[row[0] for row in X]]
+    if isinstance(e, ast.List) and len(e.elts) == 1 and isinstance(e.elts[0], ast.ListComp) \
+            and len(e.elts[0].generators) == 1 and not e.elts[0].generators[0].ifs and \
+            isinstance(e.elts[0].generators[0].target, ast.Name) and \
+            src(e.elts[0].elt) == f'{e.elts[0].generators[0].target.id}[0]':
+        a = index_map(e.elts[0].generators[0].iter, env)
+        at = {'i': Aff.sym('j'), 'j': Aff.const(0)}
+        return IndexMap(a.r.subst(at), a.c.subst(at), Aff.const(1), a.nr, True, True)
     if isinstance(e, ast.ListComp) and len(e.generators) == 1 and not e.generators[0].ifs \
             and isinstance(e.generators[0].target, ast.Name):
         t = e.generators[0].target.id
@@ -1027,45 +1079,212 @@ def index_map(e: ast.AST, env: Dict[str, IndexMap]) -> IndexMap:
     raise AnalysisError(f'unrecognised 2-D list idiom: `{src(e)}`')
 
 
-def function_index_map(fn: Func, _stack: tuple = ()) -> IndexMap:
-    """index map of a rotation function written as straight-line list code: assignments of
-    2-D list expressions (calls of module-local helpers of the same kind composed), in-place
-    `x.reverse()`, `for row in x: row.reverse()`, return"""
+class _NeedSplit(Exception):
+    """a shape test (`len(data) == 1`) inside a helper is not decided by what the caller knows
+    about its operand: the caller splits on the named dimension ('H' / 'W') and re-reads"""
+    def __init__(self, atom: str):
+        super().__init__(atom)
+        self.atom = atom
+
+
+def _dim_is_one(a: Aff, facts: Dict[str, bool]) -> Optional[bool]:
+    if a.is_const():
+        return a.k == 1
+    for d in ('H', 'W'):
+        if a == Aff.sym(d):
+            return facts.get(d)
+    return None
+
+
+def _shape_dnf(test: ast.AST, p: str, fn: Func, depth: int = 3) -> Optional[List[List[str]]]:
+    """`len(p) == 1` -> [['H']], `len(p[0]) == 1` -> [['W']], `or` / `and` of those, a pure
+    helper of the module applied to p read through; None for any other test"""
+    t = src(test).replace(' ', '')
+    if t in (f'len({p})==1', f'1==len({p})'):
+        return [['H']]
+    if t in (f'len({p}[0])==1', f'1==len({p}[0])'):
+        return [['W']]
+    if isinstance(test, ast.BoolOp):
+        parts = [_shape_dnf(v, p, fn, depth) for v in test.values]
+        if any(x is None for x in parts):
+            return None
+        if isinstance(test.op, ast.Or):
+            return [alt for x in parts for alt in x]
+        out = [[]]
+        for x in parts:
+            out = [a_ + b_ for a_ in out for b_ in x]
+        return out
+    if isinstance(test, ast.Call) and isinstance(test.func, ast.Name) and depth > 0 and \
+            len(test.args) == 1 and not test.keywords and src(test.args[0]) == p:
+        h = fn.module.functions.get(test.func.id)
+        if h is not None and len(h.node.args.args) == 1 and not h.node.decorator_list:
+            from .inline import pure_body_expr
+            b_ = pure_body_expr(h.node)
+            if b_ is not None:
+                return _shape_dnf(b_, h.node.args.args[0].arg, h, depth - 1)
+    return None
+
+
+def function_pieces(fn: Func, facts: Optional[Dict[str, bool]] = None, _stack: tuple = ()
+                    ) -> List[Tuple[Dict[str, bool], IndexMap]]:
+    """index maps of a rotation function written as straight-line list code -- assignments of
+    2-D list expressions (module-local helpers of the same kind composed), in-place
+    `x.reverse()`, `for row in x: row.reverse()`, return -- possibly preceded by early returns
+    for one-row / one-column operands (`if len(data) == 1: return ..`): one (facts, map) per
+    case of the shape tests, `facts` saying which of H == 1, W == 1 holds in that case"""
     p = fn.node.args.args[0].arg
-    env: Dict[str, Any] = {p: IndexMap.ident()}
-    env['__funcs__'] = {n: f for n, f in fn.module.functions.items()
-                        if len(f.node.args.args) == 1 and not f.node.args.vararg
-                        and not f.node.args.kwarg and not f.node.decorator_list}
-    env['__stack__'] = _stack or (fn.name,)
-    aliased_param = {p}      # names that share storage with the operand
-    mutates_operand = False
-    for st in fn.body():
-        if isinstance(st, ast.Return) and st.value is not None:
-            m = index_map(st.value, env)
-            m.mutates_operand = mutates_operand or bool(env.get('__mut__'))  # type: ignore
-            return m
-        if isinstance(st, ast.Assign) and len(st.targets) == 1 and \
-                isinstance(st.targets[0], ast.Name):
-            env[st.targets[0].id] = index_map(st.value, env)
+    funcs = {n: f for n, f in fn.module.functions.items()
+             if len(f.node.args.args) == 1 and not f.node.args.vararg
+             and not f.node.args.kwarg and not f.node.decorator_list}
+    stack = _stack or (fn.name,)
+    body = fn.body()
+
+    def run(k: int, env: Dict[str, Any], facts_: Dict[str, bool], mut: bool):
+        env = dict(env)
+        env['__facts__'] = facts_
+        for idx in range(k, len(body)):
+            st = body[idx]
+            try:
+                if isinstance(st, ast.If) and not st.orelse and len(st.body) == 1 and \
+                        isinstance(st.body[0], ast.Return) and st.body[0].value is not None:
+                    dnf = _shape_dnf(st.test, p, fn)
+                    if dnf is None:
+                        raise AnalysisError(f'{fn.name}: test `{src(st.test)[:60]}` is outside '
+                                            f'the 2-D list idioms understood')
+                    truth = [None if any(facts_.get(a_) is None for a_ in alt) and
+                             not any(facts_.get(a_) is False for a_ in alt)
+                             else all(facts_.get(a_) for a_ in alt) for alt in dnf]
+                    if any(t is True for t in truth):
+                        m = index_map(st.body[0].value, env)
+                        m.mutates_operand = mut or bool(env.get('__mut__'))  # type: ignore
+                        return [(facts_, m)]
+                    und = [alt for alt, t in zip(dnf, truth) if t is None]
+                    if und:
+                        atom = next(a_ for a_ in und[0] if facts_.get(a_) is None)
+                        raise _NeedSplit(atom)
+                    continue
+                if isinstance(st, ast.Return) and st.value is not None:
+                    m = index_map(st.value, env)
+                    m.mutates_operand = mut or bool(env.get('__mut__'))  # type: ignore
+                    return [(facts_, m)]
+                if isinstance(st, ast.Assign) and len(st.targets) == 1 and \
+                        isinstance(st.targets[0], ast.Name):
+                    env[st.targets[0].id] = index_map(st.value, env)
+                    continue
+            except _NeedSplit as ns:
+                if facts_.get(ns.atom) is not None:
+                    raise AnalysisError(f'{fn.name}: shape test on `{ns.atom}` not decided')
+                out = []
+                for val in (True, False):
+                    out += run(idx, env, {**facts_, ns.atom: val}, mut)
+                return out
+            if isinstance(st, ast.Expr) and isinstance(st.value, ast.Call) and \
+                    isinstance(st.value.func, ast.Attribute) and \
+                    st.value.func.attr == 'reverse' \
+                    and isinstance(st.value.func.value, ast.Name) and not st.value.args:
+                n = st.value.func.value.id
+                if n not in env:
+                    raise AnalysisError(f'unknown 2-D list `{n}`')
+                if not env[n].fresh_outer:
+                    mut = True
+                env[n] = env[n].rev_rows()
+                continue
+            if isinstance(st, ast.For) and isinstance(st.iter, ast.Name) and st.iter.id in env \
+                    and len(st.body) == 1 and isinstance(st.body[0], ast.Expr) and \
+                    src(st.body[0].value) == f'{src(st.target)}.reverse()':
+                n = st.iter.id
+                if not env[n].fresh_rows:
+                    mut = True
+                env[n] = env[n].rev_cols()
+                continue
+            raise AnalysisError(
+                f'{fn.name}: statement `{src(st)[:60]}` is outside the 2-D list idioms '
+                f'understood')
+        raise AnalysisError(f'{fn.name}: no return')
+    env0: Dict[str, Any] = {p: IndexMap.ident(), '__funcs__': funcs, '__stack__': stack}
+    return run(0, env0, dict(facts or {}), False)
+
+
+def special_case_mismatches(pieces: List[Tuple[Dict[str, bool], IndexMap]]
+                            ) -> Tuple[IndexMap, List[str]]:
+    """(general map, disagreements): the general map is the piece for operands with more than
+    one row and more than one column; every piece for a one-row / one-column operand must be
+    the general map specialised to that shape"""
+    general = [m for f_, m in pieces if not any(f_.values())]
+    if len(general) != 1:
+        raise AnalysisError('2-D list function: no single general case among its shape cases')
+    g = general[0]
+    bad: List[str] = []
+    for f_, m in pieces:
+        if m is g:
             continue
-        if isinstance(st, ast.Expr) and isinstance(st.value, ast.Call) and \
-                isinstance(st.value.func, ast.Attribute) and st.value.func.attr == 'reverse' \
-                and isinstance(st.value.func.value, ast.Name) and not st.value.args:
-            n = st.value.func.value.id
-            if n not in env:
-                raise AnalysisError(f'unknown 2-D list `{n}`')
-            if not env[n].fresh_outer:
-                mutates_operand = True
-            env[n] = env[n].rev_rows()
-            continue
-        if isinstance(st, ast.For) and isinstance(st.iter, ast.Name) and st.iter.id in env \
-                and len(st.body) == 1 and isinstance(st.body[0], ast.Expr) and \
-                src(st.body[0].value) == f'{src(st.target)}.reverse()':
-            n = st.iter.id
-            if not env[n].fresh_rows:
-                mutates_operand = True
-            env[n] = env[n].rev_cols()
-            continue
-        raise AnalysisError(
-            f'{fn.name}: statement `{src(st)[:60]}` is outside the 2-D list idioms understood')
-    raise AnalysisError(f'{fn.name}: no return')
+        sub = {d: Aff.const(1) for d, v in f_.items() if v}
+        gr, gc, gnr, gnc = (x.subst(sub) for x in (g.r, g.c, g.nr, g.nc))
+        mr, mc, mnr, mnc = (x.subst(sub) for x in (m.r, m.c, m.nr, m.nc))
+        idx: Dict[str, Aff] = {}
+        if gnr.is_const() and gnr.k == 1:
+            idx['i'] = Aff.const(0)
+        if gnc.is_const() and gnc.k == 1:
+            idx['j'] = Aff.const(0)
+        shape = ' and '.join(f'one {"row" if d == "H" else "column"}' for d in sorted(sub))
+        if (mnr, mnc) != (gnr, gnc):
+            bad.append(f'for an operand with {shape} the result has shape ({mnr}, {mnc}), the '
+                       f'rotation gives ({gnr}, {gnc})')
+        elif (mr.subst(idx), mc.subst(idx)) != (gr.subst(idx), gc.subst(idx)):
+            bad.append(f'for an operand with {shape} cell [i][j] of the result is '
+                       f'data[{mr.subst(idx)}][{mc.subst(idx)}], the rotation puts '
+                       f'data[{gr.subst(idx)}][{gc.subst(idx)}] there')
+        elif (g.fresh_outer and not m.fresh_outer) or (g.fresh_rows and not m.fresh_rows):
+            bad.append(f'for an operand with {shape} the result shares lists with the operand')
+    return g, bad
+
+
+def function_index_map(fn: Func, _stack: tuple = ()) -> IndexMap:
+    """the index map of a rotation function (see function_pieces); disagreements of its
+    one-row / one-column special cases with the general case are attached as `.special_bad`"""
+    g, bad = special_case_mismatches(function_pieces(fn, None, _stack))
+    g.special_bad = bad     # type: ignore
+    return g
+
+
+def subst_value(v, sub: Dict[str, Aff]):
+    """a value of the pose algebra with the symbols of `sub` replaced"""
+    if isinstance(v, Aff):
+        return v.subst(sub)
+    if isinstance(v, tuple):
+        return tuple(subst_value(x, sub) for x in v)
+    return v
+
+
+def split_cases(gi: 'GeoInterp', f, inputs, depth: int = 4):
+    """[(case description, f(*inputs'))]: `f` evaluated on the symbolic inputs; whenever the
+    interpreted code tests a symbolic number for zero, the evaluation is repeated once under the
+    assumption that it is not zero and once with the inputs specialised so that it is"""
+    out = []
+
+    def run(sub: Dict[str, Aff], nonzero: frozenset, d: int):
+        gi.nonzero = set(nonzero)
+        try:
+            r = f(*[subst_value(v, sub) for v in inputs])
+        except GeoUndecided as u:
+            a = u.aff
+            s_ = next((s for s, k in sorted(a.c.items()) if abs(k) == 1), None)
+            if d <= 0 or s_ is None:
+                raise
+            k = a.c[s_]
+            rest = a - Aff.sym(s_).scale(k)
+            zero_at = (-rest).scale(1 / k)          # the value of s_ that makes `a` zero
+            run(sub, nonzero | {a}, d - 1)
+            sub2 = {n: v.subst({s_: zero_at}) for n, v in sub.items()}
+            sub2[s_] = zero_at
+            nz2 = frozenset(x.subst({s_: zero_at}) for x in nonzero)
+            if not any(x.is_const() and x.k == 0 for x in nz2):     # else: infeasible case
+                run(sub2, nz2, d - 1)
+            return
+        finally:
+            gi.nonzero = set()
+        desc = ', '.join([f'{n} = {v}' for n, v in sorted(sub.items())] +
+                         [f'{x} != 0' for x in sorted(map(str, nonzero))])
+        out.append((desc, r))
+    run({}, frozenset(), depth)
+    return out
